@@ -213,6 +213,37 @@ theorem silent_retry_redials (w : World) (k : Nat) (e : Entry) (es : List Entry)
     simp [runTask, hr]
   exact closes_and_redials w k _ rest hp hstop hg hs hc hq hk hlt (by rw [hrt]; exact h2) (by rw [hrt]; exact h1.2.2)
 
+/-! ### after Disconnect the reconnect loop never dials again
+
+  True of the refined model only (before, a failed Connect or a failed dial after Disconnect still
+  backed off and dialled). The hypothesis `phase ≠ .idle` is needed: Disconnect before
+  ReconnectClient.Connect leaves the loop un-started, and a later Connect does dial once (see the
+  example below). -/
+
+theorem no_dial_after_disconnect (w : World) (es : List Ev) (hs : w.stopped = true) (hp : w.phase ≠ .idle) :
+    (es.foldl step w).dials = w.dials ∧ (es.foldl step w).stopped = true := by
+  induction es generalizing w with
+  | nil => exact ⟨rfl, hs⟩
+  | cons e es ih =>
+    obtain ⟨h1, h2, h3⟩ := step_stopped w e hs hp
+    obtain ⟨i1, i2⟩ := ih (step w e) h2 h3
+    exact ⟨i1.trans h1, i2⟩
+
+/-- in particular: whatever happens after a run that ended stopped, no further DialContext call -/
+theorem no_dial_after_disconnect_run (s : Script) (es : List Ev) (hs : (exec s).stopped = true)
+    (hp : (exec s).phase ≠ .idle) :
+    (exec { s with evs := s.evs ++ es }).dials = (exec s).dials := by
+  have := (no_dial_after_disconnect (exec s) es hs hp).1
+  simpa [exec, init, List.foldl_append] using this
+
+/-- Disconnect while the CONNACK is outstanding, then the Connect fails: the loop exits, no new dial -/
+example : (exec { evs := [.start, .dialOk 0, .disconnect, .connackRefused, .dialOk 0] }).dials = 1 ∧
+    (exec { evs := [.start, .dialOk 0, .disconnect, .connackRefused, .dialOk 0] }).phase = .exited ∧
+    (exec { evs := [.start, .dialOk 0, .disconnect, .connackRefused, .dialOk 0] }).conns.length = 1 := by decide
+
+/-- why `phase ≠ .idle` is needed -/
+example : (exec { evs := [.disconnect] }).dials = 0 ∧ (exec { evs := [.disconnect, .start] }).dials = 1 := by decide
+
 /-! ### non-vacuity: one QoS 1 message over three connections; the PUBACK is lost on the first, the
     broker is silent on the second (retransmission), the third delivers -/
 
